@@ -16,7 +16,7 @@ RULE = ("tree pairs (C01's generators, biased to containers of different sizes s
         "has at least one compound edit with >= 2 sub-edits; distinct = distinct case")
 ASSUMPTIONS = ["cost(e) = e.bounds() once e.tighten_bounds() returns False (must be a single value)",
                "whether the cost is minimal is not judged"]
-MINIMUMS = {"quick": {"diff_tree_costs_after_rendering": 4000, "views_compared": 8000, "levels_summed": 15000},
+MINIMUMS = {"quick": {"diff_results_compared_again": 4000, "diff_tree_costs_after_rendering": 4000, "views_compared": 8000, "levels_summed": 15000},
             "thorough": {"diff_tree_costs_after_rendering": 50000, "views_compared": 100000, "levels_summed": 300000}}
 
 
@@ -105,6 +105,23 @@ def check(case, ctx):
         if v1 is not None and not (v1 == v2 == v3):
             diags.append({"kind": "views-disagree", "top_level_edit": v1, "diff_tree_edited_cost": v2, "sum_get_all_edits": v3,
                           "edit": type(e).__name__})
+        # V6: a chain of versions -- the result of a comparison (an annotated copy of the first tree) is compared again: its cost
+        # against the second tree must be the same total, by the diff tree and by the flat list alike, and the first result's own
+        # cost must not move
+        if v1 is not None:
+            ta6, tb6 = families.build(case)
+            d6 = ta6.diff(tb6)
+            c6 = d6.edited_cost()
+            ta7, tb7 = families.build(case)
+            d67 = d6.diff(tb7)
+            v6a = d67.edited_cost()
+            v6b = sum(_cost(x).upper_bound for x in d6.get_all_edits(tb7))
+            if ctx is not None:
+                ctx.count("diff_results_compared_again")
+            if not (v6a == v6b == v1) or d6.edited_cost() != c6:
+                diags.append({"kind": "views-disagree", "top_level_edit": v1, "diff_of_a_diff_result_edited_cost": v6a,
+                              "diff_result_get_all_edits": v6b, "first_result_cost_before_after": [c6, d6.edited_cost()],
+                              "edit": type(e).__name__})
         # V5: the diff tree again, asked for its cost *after it has been rendered* (rendering refines nested edits directly, below
         # the edit that holds them), and the per-level sums of the edits the rendered tree carries
         if v1 is not None and case["family"] in ("json", "xml", "csv", "plist", "file"):
